@@ -131,8 +131,21 @@ func (s *Sender) PutBuffer(buf *bytes.Buffer) {
 }
 
 func (s *Sender) cleanup(ctx context.Context) {
-	close(s.Sink) // Sender must not be used after ctx is done
-	for stream := range s.Sink {
-		stream.Cb([]error{ctx.Err()})
+	// Sender must not be used after ctx is done. The Sink is deliberately left open: closing it makes a
+	// SendMetricsAsync call that races with the shutdown panic with "send on closed channel". Streams that
+	// are already queued, and any that still arrive, are completed with the context's error instead.
+	for {
+		select {
+		case stream := <-s.Sink:
+			stream.Cb([]error{ctx.Err()})
+			continue
+		default:
+		}
+		break
 	}
+	go func() {
+		for stream := range s.Sink {
+			stream.Cb([]error{ctx.Err()})
+		}
+	}()
 }
